@@ -16,8 +16,10 @@ RULE = ("corpora x the ways pandas rebuilds an extension array from scalars: Sea
         "new row. Distinct by input hash.")
 TRUSTED = B.TRUSTED + ["pandas' concat / reindex / take machinery is exercised, not modelled"]
 ASSUMPTIONS = B.ASSUMPTIONS
-EXPLANATION = ("model = Rebuild/Rebuild.v; spec = Index spec on the re-ordered documents; theorem in progress (the rebuilt "
-               "postings are those of the fresh index).")
+EXPLANATION = ("model = Rebuild/Rebuild.v; spec = Index spec on the re-ordered documents; theorems (Props/C19.v): the rebuilt "
+               "array stores, term by term, the postings of a fresh index of the documents in their new row order and "
+               "answers every tf / df / lengths / positions / phrase query like it; in-place assignment is compared "
+               "implementation vs spec only.")
 
 
 def gen(rng, tier):
